@@ -270,6 +270,13 @@ def run_case(spec, ctx):
             # ---------------- hierarchy ----------------
             names = {"g": "g_N", "g_dot": "g_N_dot", "g_ddot": "g_N_ddot", "W": "W_N", "g_q": "g_N_q", "g_dot_q": "xi_N_q", "g_dot_u": None, "Wla_q": "Wla_N_q"}
             so.constraint_hierarchy(ctx, system, t, q, u, u_dot, la_N, label, names=names, extra=params, key_fn=_key, exc_key_fn=_exc_key)
+            # the explicit time dependence of the gap rate is exposed as chi_N: the gap rate at u = 0
+            okc, chi = so.guarded(ctx, f"{label}.chi_N", lambda: system.chi_N(t, q), extra=ex, key_fn=_exc_key)
+            if okc:
+                ctx.mon("GEO:g_N")
+                ref_chi = np.asarray(system.g_N_dot(t, q, np.zeros_like(u)), dtype=float)
+                if np.asarray(chi).shape != ref_chi.shape or np.abs(np.asarray(chi, dtype=float) - ref_chi).max() > 1e-12 * (1 + np.abs(ref_chi).max()):
+                    ctx.violation(f"{label}.chi_N", "chi_N differs from the gap rate at zero velocity", {**ex, "chi_N": chi, "g_N_dot(u=0)": ref_chi})
             if mu > 0:
                 _friction(ctx, system, t, q, u, u_dot, la_F, label, ex, hrel)
             else:
